@@ -114,4 +114,162 @@ theorem barSeqCh_ksVals (ch ppqn : Int) (rel : List Msg) (n d : Int) :
     cases h : a.ty <;> simp
   rw [e, barBody_filter ppqn rel n d _ (fun m hm => by simp [hm])]
 
+/-! ### a relative view "in bar shape", and the copy of a bar on the channel of its own signature event -/
+
+theorem chanOf_of_ne {c : Int} (h : c ≠ pyNone) : chanOf c = c := by simp [chanOf, h]
+
+/-- `Message.__init__` never leaves a `None` channel -/
+theorem chanOf_ne_none (c : Int) : chanOf c ≠ pyNone := by
+  unfold chanOf
+  split
+  · decide
+  · assumption
+
+theorem sigChan_cons_ts (c n d t : Int) (body : List Msg) : sigChan (Msg.mkTimeSig c n d t :: body) = c := by
+  simp [sigChan, Msg.mkTimeSig]
+
+/-- **the relative view of a bar is in bar shape** for the signature `n/d` (at `ppqn`): it starts with the bar's
+    time-signature message (on some channel, all other attributes `None`) and holds no other; waits are non-negative and
+    add up to the bar's capacity; per (channel, pitch) note-ons and note-offs alternate, nothing left open (`WF`); no two
+    consecutive key signatures are equal and the first is not `None`.  This is what `Bar.__init__` establishes
+    (`mkBarCh_shape`) — the fixed points of the constructor's `normalise` / `pad` / signature handling. -/
+structure BarShape (ppqn : Int) (r : List Msg) (n d : Int) : Prop where
+  sig : (n, d) ≠ (pyNone, pyNone)
+  head : ∃ c body, c ≠ pyNone ∧ r = Msg.mkTimeSig c n d pyNone :: body ∧ ∀ m ∈ body, m.ty ≠ .timeSignature
+  nonneg : NonNegWaits r
+  wf : WF r
+  keys : ChainNe pyNone (ksVals r)
+  dur : totalWait r = barCapacity ppqn n d
+
+/-- the sequence of every accepted bar is in bar shape -/
+theorem barSeqCh_shape (ch ppqn : Int) (rel : List Msg) (n d : Int) (hn : (n, d) ≠ (pyNone, pyNone)) (hc : ch ≠ pyNone)
+    (h : totalWait (normalise rel) ≤ barCapacity ppqn n d) : BarShape ppqn (barSeqCh ch ppqn rel n d) n d where
+  sig := hn
+  head := ⟨ch, _, hc, rfl, fun m hm => by simpa using (List.mem_filter.1 hm).2⟩
+  nonneg := barSeqCh_nonneg ch ppqn rel n d
+  wf := barSeqCh_wf ch ppqn rel n d
+  keys := by
+    rw [barSeqCh_ksVals, normalise_ksVals]
+    exact chainNe_dedupD _ _
+  dur := barSeqCh_dur ch ppqn rel n d h
+
+/-- **what the constructor guarantees**: the relative view of an accepted bar is in bar shape -/
+theorem mkBarCh_shape {ppqn : Int} {rel : List Msg} {n d key ch : Int} {b : Bar} (hn : (n, d) ≠ (pyNone, pyNone))
+    (hc : ch ≠ pyNone) (h : mkBarCh ppqn rel n d key ch = .ok b) : BarShape ppqn b.seq n d := by
+  obtain ⟨h1, _, _, hb⟩ := mkBarCh_ok h
+  subst hb
+  exact barSeqCh_shape ch ppqn rel n d hn hc h1
+
+theorem eventsRelGo_filter_self (p : Msg → Bool) (hw : ∀ m : Msg, m.ty = .wait → p m = true) (hs : StampInv p)
+    (l : List Msg) (h : ∀ m ∈ l, p m = true) (cur : Int) : (eventsRelGo cur l).filter p = eventsRelGo cur l := by
+  rw [← BarL.eventsRelGo_filter p hw hs, List.filter_eq_self.2 h]
+
+/-- a relative view in bar shape is accepted again, on the channel of its own signature event, and the new bar's
+    sequence has the same timed events and duration -/
+theorem shape_rebuild {ppqn : Int} {r : List Msg} {n d : Int} (key : Int) (hs : BarShape ppqn r n d) :
+    ∃ c, c ≠ pyNone ∧ sigChan r = c ∧ r.head? = some (Msg.mkTimeSig c n d pyNone) ∧
+      mkBarCh ppqn r n d key (chanOf (sigChan r)) = .ok { seq := barSeqCh c ppqn r n d, num := n, den := d, key := key } ∧
+      eventsRel (barSeqCh c ppqn r n d) = eventsRel r ∧ totalWait (barSeqCh c ppqn r n d) = totalWait r ∧
+      BarShape ppqn (barSeqCh c ppqn r n d) n d := by
+  obtain ⟨c, body, hc, hr, hbody⟩ := hs.head
+  have hsc : sigChan r = c := by rw [hr]; exact sigChan_cons_ts c n d pyNone body
+  have htsb : tsVals body = [] := by
+    unfold tsVals
+    rw [List.filter_eq_nil_iff.2 (fun m hm => by simpa using hbody m hm)]
+    rfl
+  have hts : tsVals r = [(n, d)] := by
+    rw [hr, tsVals_cons, htsb]
+    simp [Msg.mkTimeSig]
+  have hchain : ChainNe (pyNone, pyNone) (tsVals r) := by
+    rw [hts]; exact ⟨fun e => hs.sig e.symm, trivial⟩
+  have hdur : totalWait (normalise r) ≤ barCapacity ppqn n d := by
+    rw [normalise_totalWait _ hs.nonneg, hs.dur]; exact Int.le_refl _
+  have hvals := barSigs_vals ppqn r n d
+  have hdd : dedupD (pyNone, pyNone) [(n, d)] = [(n, d)] := dedupD_of_chainNe _ _ ⟨fun e => hs.sig e.symm, trivial⟩
+  rw [hts, hdd] at hvals
+  have hev : eventsRel (normalise r) = eventsRel r := normalise_events_id r hs.nonneg hs.wf hchain hs.keys
+  refine ⟨c, hc, hsc, by rw [hr]; rfl, ?_, ?_, ?_, barSeqCh_shape c ppqn r n d hs.sig hc hdur⟩
+  · rw [hsc, chanOf_of_ne hc]
+    refine mkBarCh_ok_of key c hdur ?_ ?_
+    · have := congrArg List.length hvals
+      rw [List.length_map] at this
+      rw [this]; simp
+    · intro m hm
+      have : (m.num, m.den) ∈ (barSigs ppqn r n d).map (fun m => (m.num, m.den)) := List.mem_map.2 ⟨m, hm, rfl⟩
+      rw [hvals] at this
+      simpa using this
+  · rw [barSeqCh_events, hev, hr]
+    have h0 : eventsRel (Msg.mkTimeSig c n d pyNone :: body) = Msg.mkTimeSig c n d 0 :: eventsRelGo 0 body := rfl
+    rw [h0, List.filter_cons, if_neg (by simp [Msg.mkTimeSig]),
+      eventsRelGo_filter_self _ notTS_wait notTS_stampInv body (fun m hm => by simpa using hbody m hm)]
+  · rw [barSeqCh_dur c ppqn r n d hdur, hs.dur]
+
+/-! ### which in-place edits keep a relative view in bar shape -/
+
+theorem totalWait_map (f : Msg → Msg) (hty : ∀ m, (f m).ty = m.ty) (htm : ∀ m, (f m).time = m.time) (l : List Msg) :
+    totalWait (l.map f) = totalWait l := by
+  induction l with
+  | nil => rfl
+  | cons m ms ih => simp only [List.map_cons, totalWait, hty, htm, ih]
+
+theorem nonNegWaits_map (f : Msg → Msg) (hty : ∀ m, (f m).ty = m.ty) (htm : ∀ m, (f m).time = m.time) {l : List Msg}
+    (h : NonNegWaits l) : NonNegWaits (l.map f) := by
+  intro m hm hw
+  obtain ⟨m0, hm0, rfl⟩ := List.mem_map.1 hm
+  rw [htm]
+  exact h m0 hm0 (by rw [← hty]; exact hw)
+
+/-- an edit of the messages in place that keeps every message's type and time and turns the leading signature message into
+    the signature message on channel `c'` keeps a view in bar shape — PROVIDED the edited view still pairs its note-ons and
+    note-offs per (channel, pitch) and still has no repeated key signature (the two things such an edit can break, by
+    mapping two notes to one (channel, pitch) or two keys to one). -/
+theorem shape_map {ppqn : Int} {r : List Msg} {n d : Int} (f : Msg → Msg)
+    (hty : ∀ m, (f m).ty = m.ty) (htm : ∀ m, (f m).time = m.time)
+    (hsig : ∀ c, c ≠ pyNone → ∃ c', c' ≠ pyNone ∧ f (Msg.mkTimeSig c n d pyNone) = Msg.mkTimeSig c' n d pyNone)
+    (hs : BarShape ppqn r n d) (hwf : WF (r.map f)) (hks : ChainNe pyNone (ksVals (r.map f))) :
+    BarShape ppqn (r.map f) n d where
+  sig := hs.sig
+  head := by
+    obtain ⟨c, body, hc, hr, hbody⟩ := hs.head
+    obtain ⟨c', hc', hf⟩ := hsig c hc
+    refine ⟨c', body.map f, hc', by rw [hr, List.map_cons, hf], ?_⟩
+    intro m hm
+    obtain ⟨m0, hm0, rfl⟩ := List.mem_map.1 hm
+    rw [hty]; exact hbody m0 hm0
+  nonneg := nonNegWaits_map f hty htm hs.nonneg
+  wf := hwf
+  keys := hks
+  dur := by rw [totalWait_map f hty htm, hs.dur]
+
+theorem ksVals_setChannel (c : Int) (l : List Msg) : ksVals (setChannel c l) = ksVals l := by
+  induction l with
+  | nil => rfl
+  | cons m ms ih =>
+    have : setChannel c (m :: ms) = { m with ch := c } :: setChannel c ms := rfl
+    rw [this, ksVals_cons, ksVals_cons, ih]
+
+/-- **`set_channel(c)` keeps a bar in bar shape** (and moves the signature event to channel `c`) as long as the notes of the
+    bar still pair up per (channel, pitch) afterwards — it fails to when two channels hold overlapping notes of one pitch,
+    which `set_channel` merges (`C10Ch.merged_channels_copy_differs`). -/
+theorem shape_setChannel {ppqn : Int} {r : List Msg} {n d : Int} (c : Int) (hc : c ≠ pyNone) (hs : BarShape ppqn r n d)
+    (hwf : WF (setChannel c r)) : BarShape ppqn (setChannel c r) n d :=
+  shape_map (fun m => { m with ch := c }) (fun _ => rfl) (fun _ => rfl) (fun _ _ => ⟨c, hc, rfl⟩) hs hwf
+    (by have := ksVals_setChannel c r; unfold setChannel at this; rw [this]; exact hs.keys)
+
+/-- **`transpose(by)` without an octave wrap keeps a bar in bar shape** as long as the transposed notes still pair up and the
+    transposed key signatures do not repeat (always so for the real `Key.transpose_key`, a bijection on keys; `tk` is a
+    parameter here).  With an octave wrap `Sequence.transpose` normalises and re-quantises the sequence (sequence.py:281-283). -/
+theorem shape_transposeRel {ppqn : Int} {r : List Msg} {n d : Int} (lo hi : Int) (tk : Int → Int) (by_ : Int)
+    (hs : BarShape ppqn r n d) (hwf : WF (transposeRel lo hi tk by_ r).1)
+    (hks : ChainNe pyNone (ksVals (transposeRel lo hi tk by_ r).1)) : BarShape ppqn (transposeRel lo hi tk by_ r).1 n d := by
+  have hty : ∀ m, (transposeMsg lo hi tk by_ m).1.ty = m.ty := by
+    intro m; unfold transposeMsg; split
+    · rfl
+    · split <;> rfl
+  have htm : ∀ m, (transposeMsg lo hi tk by_ m).1.time = m.time := by
+    intro m; unfold transposeMsg; split
+    · rfl
+    · split <;> rfl
+  exact shape_map (fun m => (transposeMsg lo hi tk by_ m).1) hty htm (fun c hc => ⟨c, hc, rfl⟩) hs hwf hks
+
 end SCoda.BarChL
